@@ -62,9 +62,11 @@ ASSUMPTIONS = [
 FLOORS = {
     "quick": {"distinct_nontrivial": 4000, "pairs": 20000, "accepted_pairs": 2000, "call_shapes_executed": 7000, "typed_pairs": 2000,
               "override_pairs": 300, "override_kind_pairs": 190, "typed_sig_pairs": 5000, "typed_sig_accepted": 2000,
-              "typed_sig_args_judged": 12000, "protocol_pairs": 1000, "protocol_accepted_pairs": 180, "protocol_abc_accepted": 10,
+              "typed_sig_args_judged": 12000, "protocol_pairs": 1000, "protocol_accepted_pairs": 180, "protocol_abc_accepted": 6,
               "protocol_e2e_pairs": 90},
-    "thorough": {"distinct_nontrivial": 8000, "pairs": 100000, "call_shapes_executed": 20000},
+    "thorough": {"distinct_nontrivial": 25000, "pairs": 100000, "call_shapes_executed": 60000, "override_kind_pairs": 12000,
+                 "typed_sig_pairs": 110000, "typed_sig_accepted": 16000, "typed_sig_args_judged": 100000, "protocol_pairs": 12000,
+                 "protocol_accepted_pairs": 1900, "protocol_abc_accepted": 170, "protocol_e2e_pairs": 2400},
 }
 
 
@@ -225,25 +227,28 @@ def run_e2e_literal(ctx, sigs, pairs) -> None:
         harness.forget_module(res.module)
 
 
-def runtime_compatible(E: Sig, G: Sig) -> bool:
+def runtime_compatible(E: Sig, G: Sig, ignore=()) -> bool:
+    """Every call shape E binds also binds to G (failures whose class is in `ignore` do not count)."""
     ns = {}
     exec(E.render("e") + "\n" + G.render("g") + "\n", ns)
     for c in call_shapes_for(sorted(set(E.names()) | set(G.names()))):
-        if binds(ns["e"], c)[0] and not binds(ns["g"], c)[0]:
-            return False
+        if binds(ns["e"], c)[0]:
+            ok, err = binds(ns["g"], c)
+            if not ok and err_class(err) not in ignore:
+                return False
     return True
 
 
 def first_parameter_locus(E: Sig, G: Sig, err: str) -> str:
     """Where an accepted-but-incompatible pair goes wrong. A parameter of the actual filled twice is the mechanism every
     route shows (Signature.can_assign does not model it) and keeps its own class; otherwise 'first-parameter' if one of the signatures has no leading
-    positional parameter or the two are call-compatible once the leading positional parameter of each is removed (the
-    slot a receiver would take); else 'general'."""
+    positional parameter or the two are call-compatible (up to that filled-twice mechanism) once the leading positional
+    parameter of each is removed (the slot a receiver would take); else 'general'."""
     if err_class(err) == "multiple-values":
         return "py:multiple-values"
     e_has = bool(E.params) and E.params[0].kind in (PO, PK)
     g_has = bool(G.params) and G.params[0].kind in (PO, PK)
-    if not e_has or not g_has or runtime_compatible(Sig(E.params[1:]), Sig(G.params[1:])):
+    if not e_has or not g_has or runtime_compatible(Sig(E.params[1:]), Sig(G.params[1:]), ignore=("multiple-values",)):
         return "first-parameter"
     return "general"
 
@@ -771,7 +776,7 @@ def protocol_cases(ctx, sigs, pairs, accepted) -> list:
     (permitted ABC, member) x all signatures G x equipment of the implementing class."""
     rng = ctx.rng
     cases = []
-    nd = ctx.pick(40, 500)
+    nd = ctx.pick(32, 500)
     chosen = rng.sample(accepted, min(len(accepted), nd // 2)) + rng.sample(pairs, min(len(pairs), nd - nd // 2))
     for k, (i, j) in enumerate(chosen):
         cases.append({"variant": ("direct", "inherited")[k % 2], "member": PROTO_METHOD_NAMES[(k // 2) % len(PROTO_METHOD_NAMES)],
@@ -781,7 +786,7 @@ def protocol_cases(ctx, sigs, pairs, accepted) -> list:
     total = dims[0] * dims[1] * dims[2] * dims[3]
     idxs = range(ctx.shard, total, ctx.nshards)  # == the indices with ctx.mine(idx)
     if ctx.quick:
-        idxs = sorted(rng.sample(idxs, min(len(idxs), 90)))
+        idxs = sorted(rng.sample(idxs, min(len(idxs), 72)))
     mine = []
     for idx in idxs:
         idx, v = divmod(idx, 2)
@@ -804,7 +809,7 @@ def shard(ctx) -> None:
         run_e2e_literal(ctx, sigs, sample[k : k + 150])
     osample = rng.sample(pairs, min(len(pairs), ctx.pick(120, 800)))
     for k in range(0, len(osample), 100):
-        run_override(ctx, sigs, osample[k : k + 100], n_kinds=ctx.pick(12 if k == 0 else 0, 100))
+        run_override(ctx, sigs, osample[k : k + 100], n_kinds=ctx.pick(10 if k == 0 else 0, 100))
     if ctx.tier == "thorough":
         big = list(enumerate_sigs(4))
         bpairs = [(rng.randrange(len(big)), rng.randrange(len(big))) for _ in range(6000)]
@@ -814,7 +819,7 @@ def shard(ctx) -> None:
     # narrower) plus a sample of the others, each with several annotation assignments
     acc_set = set(accepted)
     others = [pr for pr in pairs if pr not in acc_set]
-    tcases = typed_sig_cases(ctx, sigs, accepted + rng.sample(others, min(len(others), ctx.pick(30, 400))), ctx.pick(3, 24))
+    tcases = typed_sig_cases(ctx, sigs, accepted + rng.sample(others, min(len(others), ctx.pick(20, 400))), ctx.pick(3, 24))
     for k in range(0, len(tcases), 400):
         run_typed_sigs(ctx, sigs, tcases[k : k + 400])
     pcases = protocol_cases(ctx, sigs, pairs, accepted)
